@@ -527,6 +527,8 @@ struct ProgOut {
     oracle: String,
     /// model description of the original when it is not the node-by-node one (fused chains, F22)
     desc_override: Option<Vec<String>>,
+    /// the original is the same program as `run_<alias>` (several variants of one original): not emitted again
+    run_alias: Option<String>,
 }
 
 /// bring a u64 source to the type an operator instance needs
@@ -588,7 +590,7 @@ fn unit_programs(out: &mut Vec<ProgOut>, rng: &mut Rng) {
                 let o = b.un(&s, &m.0, &m.1, m.2.clone(), m.3, m.4, m.5);
                 let o = ctx_out(&mut b, o, ctx);
                 b.sink(&o);
-                out.push(ProgOut { name: format!("u{}", out.len()), kind: "unit", b, variant: None, oracle: String::new(), desc_override: None });
+                out.push(ProgOut { name: format!("u{}", out.len()), kind: "unit", b, variant: None, oracle: String::new(), desc_override: None, run_alias: None });
             }
         }
     }
@@ -609,7 +611,7 @@ fn unit_programs(out: &mut Vec<ProgOut>, rng: &mut Rng) {
                     let o = ctx_out(&mut b, o, if ctx == 1 { 2 } else { 0 });
                     b.sink(&o);
                 }
-                out.push(ProgOut { name: format!("u{}", out.len()), kind: "unit", b, variant: None, oracle: String::new(), desc_override: None });
+                out.push(ProgOut { name: format!("u{}", out.len()), kind: "unit", b, variant: None, oracle: String::new(), desc_override: None, run_alias: None });
             }
         }
     }
@@ -639,7 +641,7 @@ fn unit_programs(out: &mut Vec<ProgOut>, rng: &mut Rng) {
                 let o = b.multi(&[(&a, m.2[0]), (&c, m.2[1])], &m.0, &m.1, m.3.clone(), m.4, m.5, m.6);
                 let o = ctx_out(&mut b, o, ctx);
                 b.sink(&o);
-                out.push(ProgOut { name: format!("u{}", out.len()), kind: "unit", b, variant: None, oracle: String::new(), desc_override: None });
+                out.push(ProgOut { name: format!("u{}", out.len()), kind: "unit", b, variant: None, oracle: String::new(), desc_override: None, run_alias: None });
             }
         }
     }
@@ -652,7 +654,7 @@ fn unit_programs(out: &mut Vec<ProgOut>, rng: &mut Rng) {
         for t in ts {
             b.sink(&t);
         }
-        out.push(ProgOut { name: format!("u{}", out.len()), kind: "unit", b, variant: None, oracle: String::new(), desc_override: None });
+        out.push(ProgOut { name: format!("u{}", out.len()), kind: "unit", b, variant: None, oracle: String::new(), desc_override: None, run_alias: None });
     }
 }
 
@@ -803,7 +805,7 @@ fn blocking_programs(out: &mut Vec<ProgOut>, rng: &mut Rng, count: usize) {
                 let ordered = kind == "sort" || i.ordered;
                 let o = b.un(&i, &desc, &code, N, ordered, 36, false);
                 b.sink(&o);
-                out.push(ProgOut { name: format!("b{c}"), kind: "blocking", b, variant: None, oracle: desc, desc_override: None });
+                out.push(ProgOut { name: format!("b{c}"), kind: "blocking", b, variant: None, oracle: desc, desc_override: None, run_alias: None });
             }
             "fold_keyed" | "reduce_keyed" => {
                 let k = prep(&mut b, &s0, "KN", rng);
@@ -816,7 +818,7 @@ fn blocking_programs(out: &mut Vec<ProgOut>, rng: &mut Rng, count: usize) {
                 };
                 let o = b.un(&i, &desc, &code, p(N, N), false, 36, false);
                 b.sink(&o);
-                out.push(ProgOut { name: format!("b{c}"), kind: "blocking", b, variant: None, oracle: desc, desc_override: None });
+                out.push(ProgOut { name: format!("b{c}"), kind: "blocking", b, variant: None, oracle: desc, desc_override: None, run_alias: None });
             }
             _ => {
                 let s1 = b.source();
@@ -836,7 +838,7 @@ fn blocking_programs(out: &mut Vec<ProgOut>, rng: &mut Rng, count: usize) {
                 let m = menu.iter().find(|m| m.0 == want).unwrap_or_else(|| panic!("{want}")).clone();
                 let o = b.multi(&[(&a, m.2[0]), (&c2, m.2[1])], &m.0, &m.1, m.3, m.4, m.5, m.6);
                 b.sink(&o);
-                out.push(ProgOut { name: format!("b{c}"), kind: "blocking", b, variant: None, oracle: want, desc_override: None });
+                out.push(ProgOut { name: format!("b{c}"), kind: "blocking", b, variant: None, oracle: want, desc_override: None, run_alias: None });
             }
         }
     }
@@ -875,6 +877,8 @@ fn perturb_at(b: &mut Builder, target_id: usize, k: usize, stage: &str) -> Strin
         "map_id" => vec![one("map id", format!("map(|x: {tr}| x)"), String::new(), 1)],
         "tee1" => vec![one("tee 1", "tee()".into(), String::new(), 1)],
         "union1" => vec![NodeD { id: fresh, desc: "union 1".into(), ins: vec![r], in_labels: vec!["0".into()], expr: "union()".into(), post: String::new(), out_labels: vec![format!("n{fresh}")], out_tys: vec![ty.clone()] }],
+        // the same unary union written `x -> union() -> ..` (its input port is elided, not `[0]`)
+        "union1e" => vec![one("union 1", "union()".into(), String::new(), 1)],
         "tee_null" => vec![one("tee 2", "tee()".into(), format!("n{fresh} -> for_each(|_x: {tr}| {{}});"), 2)],
         _ => vec![
             NodeD { id: fresh + 1, desc: "empty".into(), ins: vec![], in_labels: vec![], expr: format!("source_iter(Vec::<{tr}>::new())"), post: String::new(), out_labels: vec![format!("n{}", fresh + 1)], out_tys: vec![ty.clone()] },
@@ -893,6 +897,7 @@ fn perturb_at(b: &mut Builder, target_id: usize, k: usize, stage: &str) -> Strin
         }
     }
     b.nodes = nodes;
+    let stage = if stage == "union1e" { "union1" } else { stage };
     format!("perturb {stage} {fresh} {target_id} {k}")
 }
 
@@ -917,7 +922,7 @@ fn finding_programs(out: &mut Vec<ProgOut>) {
         let _ = line;
         let vl: Vec<String> = v.desc_lines().into_iter().filter(|l| l.starts_with("node ")).map(|l| format!("v{l}")).collect();
         let d = vec!["node 0 source 0 <-".to_string(), "node 1 source 1 <-".into(), "node 3 map kv3 <- 1.0".into(), "node 4 fused_enum_chain_first_n 1 <- 0.0 3.0".into(), "sink 0 4.0 seq".into()];
-        out.push(ProgOut { name: "f0".into(), kind: "finding", b, variant: Some((vl, v)), oracle: "finding:lazy-shortcircuit".into(), desc_override: Some(d) });
+        out.push(ProgOut { name: "f0".into(), kind: "finding", b, variant: Some((vl, v)), oracle: "finding:lazy-shortcircuit".into(), desc_override: Some(d), run_alias: None });
     }
     // (b) unique::<'static> -> [input]cross_singleton (single side empty in some ticks)
     {
@@ -934,7 +939,7 @@ fn finding_programs(out: &mut Vec<ProgOut>) {
         let _ = line;
         let vl: Vec<String> = v.desc_lines().into_iter().filter(|l| l.starts_with("node ")).map(|l| format!("v{l}")).collect();
         let d = vec!["node 0 source 0 <-".to_string(), "node 1 source 1 <-".into(), "node 3 fused_unique_cross_singleton <- 0.0 1.0".into(), "sink 0 3.0 seq".into()];
-        out.push(ProgOut { name: "f1".into(), kind: "finding", b, variant: Some((vl, v)), oracle: "finding:lazy-shortcircuit".into(), desc_override: Some(d) });
+        out.push(ProgOut { name: "f1".into(), kind: "finding", b, variant: Some((vl, v)), oracle: "finding:lazy-shortcircuit".into(), desc_override: Some(d), run_alias: None });
     }
     // (c) unique::<'static> -> [signal]defer_signal
     {
@@ -951,8 +956,274 @@ fn finding_programs(out: &mut Vec<ProgOut>) {
         let _ = line;
         let vl: Vec<String> = v.desc_lines().into_iter().filter(|l| l.starts_with("node ")).map(|l| format!("v{l}")).collect();
         let d = vec!["node 0 source 0 <-".to_string(), "node 1 source 1 <-".into(), "node 3 fused_unique_defer_signal <- 0.0 1.0".into(), "sink 0 3.0 seq".into()];
-        out.push(ProgOut { name: "f2".into(), kind: "finding", b, variant: Some((vl, v)), oracle: "finding:lazy-shortcircuit".into(), desc_override: Some(d) });
+        out.push(ProgOut { name: "f2".into(), kind: "finding", b, variant: Some((vl, v)), oracle: "finding:lazy-shortcircuit".into(), desc_override: Some(d), run_alias: None });
     }
+}
+
+// ------------------------------------------------------------------ unary union()/tee() directly at input ports
+
+/// The shapes `eliminate_extra_unions_tees` splices out of the flat graph (`remove_intermediate_node`),
+/// as the LAST stages in front of an input port: `tee` = `x -> tee()` with one consumer, `unionE` =
+/// `x -> union()` (elided input port), `union0` = `u = union(); x -> [0]u` (explicit input port), and chains.
+const SPLICES: [&[&str]; 6] = [&["tee"], &["unionE"], &["union0"], &["tee", "unionE"], &["union0", "tee"], &["unionE", "union0", "tee"]];
+
+fn splice(b: &mut Builder, mut i: Out, shape: &[&str]) -> Out {
+    for st in shape {
+        let lz = i.lazy_stateful;
+        i = match *st {
+            "tee" => {
+                let mut o = b.tee(&i, 1).remove(0);
+                o.lazy_stateful = lz;
+                o
+            }
+            "unionE" => b.un(&i, "union 1", "union()", i.ty.clone(), i.ordered, i.est, lz),
+            "union0" => b.multi(&[(&i, "0")], "union 1", "union()", i.ty.clone(), i.ordered, i.est, lz),
+            _ => panic!(),
+        };
+    }
+    i
+}
+
+/// (description = oracle tag, code) of a one-input blocking operator of the C23 families
+fn blocking_unary_op(kind: &str, pe: Pe) -> (String, String) {
+    match kind {
+        "fold_sum" => (format!("fold {} sum", pe.w()), format!("fold::<{}>(|| 0u64, |a: &mut u64, x: u64| {{ *a += x; }})", pe.l())),
+        "fold_cnt" => (format!("fold {} cnt", pe.w()), format!("fold::<{}>(|| 0u64, |a: &mut u64, x: u64| {{ *a += 1; }})", pe.l())),
+        "reduce_max" => (format!("reduce {} max", pe.w()), format!("reduce::<{}>(|a: &mut u64, x: u64| {{ if *a < x {{ *a = x }}; }})", pe.l())),
+        "sort" => ("sort".into(), "sort()".into()),
+        "persist" => ("persist".into(), "persist::<'static, u64>()".into()),
+        "unique" => (format!("unique {}", pe.w()), format!("unique::<{}>()", pe.l())),
+        "multiset_delta" => ("multiset_delta".into(), "map(|x: u64| x) -> multiset_delta() -> map(|x: u64| x)".into()),
+        "lattice_reduce" => (format!("lattice_reduce {}", pe.w()), format!("map(|x: u64| Max::new(x)) -> lattice_reduce::<{}>() -> map(|m: Max<u64>| m.into_reveal())", pe.l())),
+        "fold_keyed" => (format!("fold_keyed {} sum", pe.w()), format!("fold_keyed::<{}, u64, u64>(|| 0u64, |a: &mut u64, x: u64| {{ *a += x; }})", pe.l())),
+        "reduce_keyed" => (format!("reduce_keyed {} max", pe.w()), format!("reduce_keyed::<{}, u64, u64>(|a: &mut u64, x: u64| {{ if *a < x {{ *a = x }}; }})", pe.l())),
+        _ => panic!("{kind}"),
+    }
+}
+
+/// C23: for every blocking input port of the oracle's catalogue, pipelines (depth 0-2 of the usual
+/// pass-through stages) whose last stage(s) directly in front of the port are unary `union()` / `tee()`
+/// (every shape of `SPLICES`), on either port, on both ports, for every persistence combination.
+fn splice_blocking_programs(out: &mut Vec<ProgOut>, rng: &mut Rng) {
+    let mut c = 0usize;
+    let unary = ["fold_sum", "fold_cnt", "reduce_max", "sort", "persist", "unique", "lattice_reduce", "multiset_delta", "fold_keyed", "reduce_keyed"];
+    for (ki, kind) in unary.iter().enumerate() {
+        for j in 0..4 {
+            let shape = if j < 3 { SPLICES[j] } else { SPLICES[3 + ki % 3] };
+            let pe = PES[(ki + j) % 2];
+            let mut b = Builder::default();
+            let s0 = b.source();
+            let keyed = kind.ends_with("_keyed");
+            let i = if keyed { prep(&mut b, &s0, "KN", rng) } else { s0 };
+            let d = rng.below(3) as usize;
+            let i = passthrough(&mut b, i, d, rng);
+            let i = splice(&mut b, i, shape);
+            let (desc, code) = blocking_unary_op(kind, pe);
+            let ordered = *kind == "sort" || (i.ordered && !keyed);
+            let o = b.un(&i, &desc, &code, if keyed { p(N, N) } else { N }, ordered, 36, false);
+            b.sink(&o);
+            out.push(ProgOut { name: format!("s{c}"), kind: "blocking", b, variant: None, oracle: desc, desc_override: None, run_alias: None });
+            c += 1;
+        }
+    }
+    let binary = ["anti_join", "difference", "join", "cross_join_multiset", "cross_join", "zip"];
+    let combos = [(Pe::T, Pe::T), (Pe::T, Pe::S), (Pe::S, Pe::T), (Pe::S, Pe::S)];
+    for (ki, kind) in binary.iter().enumerate() {
+        // (spliced ports, shape index): each port alone x {3 single shapes, 1 chain}, then both ports
+        let mut plans: Vec<([Option<usize>; 2], usize)> = vec![];
+        for port in 0..2 {
+            for j in 0..4 {
+                let sh = if j < 3 { j } else { 3 + (ki + port) % 3 };
+                let mut pl = [None, None];
+                pl[port] = Some(sh);
+                plans.push((pl, j));
+            }
+        }
+        plans.push(([Some(ki % 3), Some((ki + 1) % 3)], ki % 4));
+        plans.push(([Some(3 + ki % 3), Some((ki + 2) % 3)], (ki + 2) % 4));
+        for (pl, j) in plans {
+            let (pel, per) = if *kind == "zip" { (Pe::T, Pe::T) } else { combos[j] };
+            let mut b = Builder::default();
+            let s0 = b.source();
+            let s1 = b.source();
+            let (wa, wb) = match *kind {
+                "anti_join" => ("KN", "K"),
+                "join" => ("KN", "KN"),
+                _ => ("N", "N"),
+            };
+            let a = prep(&mut b, &s0, wa, rng);
+            let c2 = prep(&mut b, &s1, wb, rng);
+            let da = rng.below(3) as usize;
+            let dc = rng.below(3) as usize;
+            let a = passthrough(&mut b, a, da, rng);
+            let c2 = passthrough(&mut b, c2, dc, rng);
+            let a = if let Some(sh) = pl[0] { splice(&mut b, a, SPLICES[sh]) } else { a };
+            let c2 = if let Some(sh) = pl[1] { splice(&mut b, c2, SPLICES[sh]) } else { c2 };
+            let menu = binary_menu(&a, &c2);
+            let want = format!("{kind} {} {}", pel.w(), per.w());
+            let m = menu.iter().find(|m| m.0 == want).unwrap_or_else(|| panic!("{want}")).clone();
+            let o = b.multi(&[(&a, m.2[0]), (&c2, m.2[1])], &m.0, &m.1, m.3, m.4, m.5, m.6);
+            b.sink(&o);
+            out.push(ProgOut { name: format!("s{c}"), kind: "blocking", b, variant: None, oracle: want, desc_override: None, run_alias: None });
+            c += 1;
+        }
+    }
+}
+
+/// C22: for every two-input operator of the catalogue (one persistence combination each, rotating) and
+/// each of its input ports: the pair (original, the same program with a unary `tee()` / `union()` with
+/// `[0]` input port / `union()` with elided input port inserted directly in front of that port), plus one
+/// pair with a chain of two of them. One compiled original is shared by its variants.
+fn port_perturb_programs(out: &mut Vec<ProgOut>, rng: &mut Rng) {
+    let mut seen = std::collections::BTreeSet::new();
+    let mut idx = 0usize;
+    let push_pairs = |out: &mut Vec<ProgOut>, b: Builder, target: usize, idx: usize| {
+        let orig = format!("p{idx}");
+        let mut plans: Vec<(String, Vec<(usize, &str)>)> = vec![];
+        for port in 0..2 {
+            for st in ["tee1", "union1", "union1e"] {
+                plans.push((format!("{orig}_{port}{st}"), vec![(port, st)]));
+            }
+        }
+        let cp = idx % 2;
+        plans.push((format!("{orig}_chain"), if idx % 4 < 2 { vec![(cp, "tee1"), (cp, "union1e")] } else { vec![(cp, "union1"), (cp, "tee1")] }));
+        for (vi, (name, steps)) in plans.into_iter().enumerate() {
+            let mut v = b.clone();
+            v.next_id = b.next_id + 100;
+            let lines: Vec<String> = steps.iter().map(|(port, st)| perturb_at(&mut v, target, *port, st)).collect();
+            out.push(ProgOut { name: if vi == 0 { orig.clone() } else { name }, kind: "port", b: b.clone(), variant: Some((lines, v)), oracle: String::new(), desc_override: None, run_alias: if vi == 0 { None } else { Some(orig.clone()) } });
+        }
+    };
+    for (wa, wb) in [("N", "N"), ("KN", "KN"), ("KV", "K"), ("KN", "N")] {
+        let mut probe = Builder::default();
+        let a = probe.source();
+        let a = prep(&mut probe, &a, wa, rng);
+        let c = probe.source();
+        let c = prep(&mut probe, &c, wb, rng);
+        let menu = binary_menu(&a, &c);
+        let mut names: Vec<String> = vec![];
+        for m in &menu {
+            let nm = m.0.split(' ').next().unwrap().to_string();
+            if !names.contains(&nm) {
+                names.push(nm);
+            }
+        }
+        for nm in names {
+            if !seen.insert(nm.clone()) {
+                continue;
+            }
+            let entries: Vec<_> = menu.iter().filter(|m| m.0.split(' ').next().unwrap() == nm).collect();
+            let pick = entries[idx % entries.len()].0.clone();
+            let mut b = Builder::default();
+            let a = b.source();
+            let a = prep(&mut b, &a, wa, rng);
+            let c = b.source();
+            let c = prep(&mut b, &c, wb, rng);
+            let menu2 = binary_menu(&a, &c);
+            let m = menu2.iter().find(|x| x.0 == pick).unwrap().clone();
+            let o = b.multi(&[(&a, m.2[0]), (&c, m.2[1])], &m.0, &m.1, m.3.clone(), m.4, m.5, m.6);
+            b.sink(&o);
+            push_pairs(out, b, o.node, idx);
+            idx += 1;
+        }
+    }
+    // union with two inputs
+    {
+        let mut b = Builder::default();
+        let ins: Vec<Out> = (0..2).map(|_| b.source()).collect();
+        let u = union_n(&mut b, &ins);
+        b.sink(&u);
+        push_pairs(out, b, u.node, idx);
+    }
+}
+
+// ------------------------------------------------------------------ wiring of the partitioned graph
+
+fn is_splice(n: &NodeD) -> bool {
+    n.desc == "tee 1" || n.desc == "union 1"
+}
+
+/// Run the program text through the real `dfir_lang` pipeline (parse, flat graph, eliminate, partition;
+/// no rustc) and compare, for every operator input of the description, which producer the partitioned
+/// graph connects to which input port (through handoffs) with the program as written (unary unions and
+/// tees resolved to what feeds them). Returns (node id, text, the difference is a pure re-labelling of the
+/// ports of one operator whose inputs all have the same item type = rustc will still accept it).
+fn wiring_check(b: &Builder) -> Vec<(Option<usize>, String, bool)> {
+    use dfir_lang::graph::{GraphNode, GraphNodeId};
+    let text = b.body();
+    let code = match syn::parse_str::<dfir_lang::parse::DfirCode>(&text) {
+        Ok(c) => c,
+        Err(e) => return vec![(None, format!("parse: {e}"), false)],
+    };
+    let built = std::panic::catch_unwind(std::panic::AssertUnwindSafe(|| dfir_lang::graph::build_dfir_code(code, &quote::quote!(dfir_rs))));
+    let g = match built {
+        Ok(Ok(o)) => o.partitioned_graph,
+        Ok(Err(d)) => return vec![(None, format!("dfir_lang rejects the program: {}", d.iter().map(|x| x.to_string()).collect::<Vec<_>>().join(" / ").chars().take(200).collect::<String>()), false)],
+        Err(_) => return vec![(None, "dfir_lang panicked on the program".into(), false)],
+    };
+    let var = |n: GraphNodeId| g.node_varname(n).map(|v| v.0.to_string());
+    let producers = |n: GraphNodeId| -> Vec<(String, String, String)> {
+        let mut v = vec![];
+        for (e, pnode) in g.node_predecessors(n) {
+            let dst = g.edge_ports(e).1.to_string();
+            let (mut e, mut pnode) = (e, pnode);
+            let mut guard = 0;
+            while matches!(g.node(pnode), GraphNode::Handoff { .. }) && guard < 64 {
+                let Some((e2, p2)) = g.node_predecessors(pnode).next() else { break };
+                e = e2;
+                pnode = p2;
+                guard += 1;
+            }
+            let src = g.edge_ports(e).0.to_string();
+            v.push((var(pnode).unwrap_or_else(|| "?".into()), src, dst));
+        }
+        v
+    };
+    let mut errs = vec![];
+    for n in &b.nodes {
+        if n.ins.is_empty() || is_splice(n) {
+            continue;
+        }
+        let me = format!("n{}", n.id);
+        let gn: Vec<GraphNodeId> = g.node_ids().filter(|&x| var(x).as_deref() == Some(me.as_str())).collect();
+        let mut got: Vec<(String, String, String)> = gn.iter().flat_map(|&x| producers(x)).filter(|(v, _, _)| *v != me).collect();
+        got.sort();
+        let mut exp = vec![];
+        for (k, r) in n.ins.iter().enumerate() {
+            let mut r = *r;
+            while is_splice(b.node(r.0)) {
+                r = b.node(r.0).ins[0];
+            }
+            let label = b.label(r);
+            let (v, sp) = match label.split_once('[') {
+                Some((v, rest)) => (v.to_string(), rest.trim_end_matches(']').to_string()),
+                None => (label.clone(), "[]".to_string()),
+            };
+            let dp = if n.in_labels.is_empty() { "[]".to_string() } else { n.in_labels[k].clone() };
+            exp.push((v, sp, dp));
+        }
+        exp.sort();
+        if got != exp {
+            let strip = |v: &Vec<(String, String, String)>| {
+                let mut w: Vec<(String, String)> = v.iter().map(|(a, s, _)| (a.clone(), s.clone())).collect();
+                w.sort();
+                w
+            };
+            let t0 = b.ty(n.ins[0]);
+            let same_ty = n.ins.len() >= 2 && n.ins.iter().all(|r| b.ty(*r) == t0);
+            let relabel = same_ty && strip(&got) == strip(&exp);
+            let f = |v: &Vec<(String, String, String)>| v.iter().map(|(a, s, d)| format!("{a}{}->[{}]", if s == "[]" { String::new() } else { format!("[{s}]") }, if d == "[]" { "" } else { d })).collect::<Vec<_>>().join(",");
+            errs.push((Some(n.id), format!("node {} `{}` written {} partitioned-graph {}", n.id, n.desc, f(&exp), f(&got)), relabel));
+        }
+    }
+    errs
+}
+
+/// (text for ProgInfo.wiring, replace the function by a stub because rustc may reject the mis-wired program)
+fn wiring_verdict(b: &Builder) -> (String, bool) {
+    let errs = wiring_check(b);
+    let quarantine = errs.iter().any(|e| !e.2);
+    (errs.iter().map(|e| e.1.clone()).collect::<Vec<_>>().join("; "), quarantine)
 }
 
 fn with_variant(mut po: ProgOut, rng: &mut Rng, nperturb: usize) -> ProgOut {
@@ -997,7 +1268,7 @@ fn main() {
         let mut rng = root.fork(1000 + i as u64);
         let steps = 2 + (i % 9);
         let b = random_program(&mut rng, steps);
-        let po = ProgOut { name: format!("r{i}"), kind: "random", b, variant: None, oracle: String::new(), desc_override: None };
+        let po = ProgOut { name: format!("r{i}"), kind: "random", b, variant: None, oracle: String::new(), desc_override: None, run_alias: None };
         let np = rng.range(1, 3) as usize;
         progs.push(with_variant(po, &mut rng, np));
     }
@@ -1011,17 +1282,42 @@ fn main() {
     }
     let _ = nunit;
     finding_programs(&mut progs);
+    // unary union()/tee() directly at input ports (always at full scale): C23 pipelines, C22 pairs
+    let mut rngs = root.fork(4);
+    splice_blocking_programs(&mut progs, &mut rngs);
+    let mut rngp = root.fork(5);
+    port_perturb_programs(&mut progs, &mut rngp);
+
+    // the wiring the real dfir_lang pipeline gives every program; a program whose inputs it connects
+    // differently from the text in a way rustc may reject is replaced by a stub (reported by the harness)
+    std::panic::set_hook(Box::new(|_| {}));
+    let verdicts: Vec<((String, bool), Option<(String, bool)>)> = progs.iter().map(|po| (wiring_verdict(&po.b), po.variant.as_ref().map(|(_, v)| wiring_verdict(v)))).collect();
+    let _ = std::panic::take_hook();
+    let stub = |name: &str, nsink: usize| format!("pub fn run_{name}(_inputs: &[Vec<Vec<u64>>], ticks: usize) -> Vec<Vec<Vec<String>>> {{ quarantined(ticks, {nsink}) }}\n");
 
     let mut src = String::new();
     let _ = writeln!(src, "// generated by build.rs -- {} programs", progs.len());
-    for po in &progs {
-        src.push_str(&po.b.emit(&po.name));
+    let mut nstub = 0;
+    for (po, (w, vw)) in progs.iter().zip(verdicts.iter()) {
+        if po.run_alias.is_none() {
+            if w.1 {
+                nstub += 1;
+                src.push_str(&stub(&po.name, po.b.sinks.len()));
+            } else {
+                src.push_str(&po.b.emit(&po.name));
+            }
+        }
         if let Some((_, v)) = &po.variant {
-            src.push_str(&v.emit(&format!("{}_v", po.name)));
+            if vw.as_ref().is_some_and(|x| x.1) {
+                nstub += 1;
+                src.push_str(&stub(&format!("{}_v", po.name), v.sinks.len()));
+            } else {
+                src.push_str(&v.emit(&format!("{}_v", po.name)));
+            }
         }
     }
     let _ = writeln!(src, "pub static PROGS: &[ProgInfo] = &[");
-    for po in &progs {
+    for (po, (w, vw)) in progs.iter().zip(verdicts.iter()) {
         let desc = po.desc_override.clone().unwrap_or_else(|| po.b.desc_lines()).join("\n");
         let (pl, vrun, vdesc) = match &po.variant {
             Some((ls, v)) => (ls.join("\n"), format!("Some(run_{}_v)", po.name), v.desc_lines().join("\n")),
@@ -1032,7 +1328,7 @@ fn main() {
         ops.dedup();
         let _ = writeln!(
             src,
-            "    ProgInfo {{ name: {}, kind: {}, nsrc: {}, nsink: {}, desc: {}, perturb: {}, vdesc: {}, oracle: {}, ops: {}, src: {}, vsrc: {}, run: run_{}, vrun: {} }},",
+            "    ProgInfo {{ name: {}, kind: {}, nsrc: {}, nsink: {}, desc: {}, perturb: {}, vdesc: {}, oracle: {}, ops: {}, src: {}, vsrc: {}, wiring: {}, vwiring: {}, run: run_{}, vrun: {} }},",
             rust_str(&po.name),
             rust_str(po.kind),
             po.b.nsrc,
@@ -1044,14 +1340,20 @@ fn main() {
             rust_str(&ops.join(",")),
             rust_str(&po.b.body()),
             rust_str(&po.variant.as_ref().map(|(_, v)| v.body()).unwrap_or_default()),
-            po.name,
+            rust_str(&w.0),
+            rust_str(&vw.as_ref().map(|x| x.0.clone()).unwrap_or_default()),
+            po.run_alias.as_deref().unwrap_or(&po.name),
             vrun
         );
     }
     let _ = writeln!(src, "];");
-    println!("cargo:warning=hv_dfir corpus: {} programs, {} with variants", progs.len(), progs.iter().filter(|p| p.variant.is_some()).count());
+    let nmis = verdicts.iter().filter(|(w, vw)| !w.0.is_empty() || vw.as_ref().is_some_and(|x| !x.0.is_empty())).count();
+    println!("cargo:warning=hv_dfir corpus: {} programs, {} with variants, {} functions; wiring differs from the text in {} programs ({} functions stubbed)", progs.len(), progs.iter().filter(|p| p.variant.is_some()).count(), progs.iter().filter(|p| p.run_alias.is_none()).count() + progs.iter().filter(|p| p.variant.is_some()).count(), nmis, nstub);
     let out = std::path::PathBuf::from(std::env::var("OUT_DIR").unwrap()).join("corpus.rs");
-    std::fs::write(&out, src).unwrap();
+    // (written only when the content changes: an unchanged corpus is not recompiled)
+    if std::fs::read_to_string(&out).ok().as_deref() != Some(src.as_str()) {
+        std::fs::write(&out, &src).unwrap();
+    }
     // a copy for inspection
-    let _ = std::fs::write("/tmp/hv_dfir_corpus.rs", std::fs::read_to_string(&out).unwrap());
+    let _ = std::fs::write(std::env::var("HV_DFIR_CORPUS_COPY").unwrap_or_else(|_| "/tmp/hv_dfir_corpus.rs".into()), &src);
 }
